@@ -181,6 +181,7 @@ func runCheck(eng *Engine, o checkOpts, t0 time.Time) int {
 	var undecided []string
 	engineFault := false
 	knownSeen := map[*KnownFinding]bool{}
+	var staleMsgs []string
 	for _, rw := range rows {
 		d := rw.d
 		name := d.Obl.Name
@@ -233,6 +234,17 @@ func runCheck(eng *Engine, o checkOpts, t0 time.Time) int {
 			continue
 		}
 		rp := eng.Replay(rw.r, d, filepath.Join(outDir, "replay"))
+		if len(rw.r.Exec.staleClauses) > 0 && !rp.Confirmed {
+			// the contract's loop clauses no longer fit the code (e.g. a renamed
+			// local): without them the obligation cannot be decided; only a
+			// counterexample that replays on the real code counts
+			nUndec++
+			nObl--
+			msg := fmt.Sprintf("%s: not decided, stale loop clause (%s)", name, strings.Join(rw.r.Exec.staleClauses, "; "))
+			undecided = append(undecided, msg)
+			staleMsgs = append(staleMsgs, msg)
+			continue
+		}
 		nViol++
 		suffix := ""
 		if !rp.Confirmed {
@@ -247,6 +259,9 @@ func runCheck(eng *Engine, o checkOpts, t0 time.Time) int {
 	}
 	for _, u := range unsupported {
 		fmt.Printf("UNDECIDED contract %s\n", u)
+	}
+	for _, m := range staleMsgs {
+		fmt.Printf("UNDECIDED %s\n", m)
 	}
 
 	// evidence
